@@ -166,6 +166,18 @@ def _positive_by_construction(e, positives) -> bool:
     return False
 
 
+def _sign_core(e, positives):
+    """e stripped of factors that are positive by construction (same sign as e)."""
+    while isinstance(e, ast.BinOp) and isinstance(e.op, (ast.Mult, ast.Div)):
+        if _positive_by_construction(e.right, positives):
+            e = e.left
+        elif _positive_by_construction(e.left, positives):
+            e = e.right
+        else:
+            break
+    return e
+
+
 def r4_finite(ctx):
     ctx.rule("C08.R4", "finite penalty: no non-finite literal, finite INFINITY, guarded log / power", 3)
     ix = ctx.ix
@@ -206,7 +218,8 @@ def r4_finite(ctx):
         if isinstance(c, ast.Call) and U(c.func) == "torch.log":
             if c.args and _positive_by_construction(c.args[0], positives):
                 continue  # products / quotients of the positive Weibull parameters
-            guarded = any(any(x is c for x in ast.walk(w.args[1])) and U(w.args[0]) == f"{U(c.args[0])} > 0" for w in wheres)
+            core = _sign_core(c.args[0], positives) if c.args else None
+            guarded = any(any(x is c for x in ast.walk(w.args[1])) and U(w.args[0]) in (f"{U(c.args[0])} > 0", f"{U(core)} > 0") for w in wheres)
             if not guarded:
                 ok, why = False, f"`{U(c)}` is not on the guarded side of where(. > 0, ...)"
         if isinstance(c, ast.BinOp) and isinstance(c.op, ast.Pow) and T in {n.id for n in ast.walk(c.left) if isinstance(n, ast.Name)}:
